@@ -271,12 +271,11 @@ def build_aged(f, cs, shape, how, **kw):
                     (set_val(index=) keeps the buffer), reads applied again in between
       aged_view     a slice view of a larger parent, both read/operated on, then the elements written through the parent
       aged_sibling  the object itself after shallow copies of it were resized / rewritten and its views were written back
-      aged_derived  other codes in the transposed/flattened arrangement, operated on, then derived (T / flatten / reshape)
-                    and written in place
+      aged_derived  the codes in the transposed / 2-d / longer arrangement, operated on, then derived (T / flatten / element read)
       aged_resized  born from integers in an n_frac=0 format of the other signedness, resized by dtype string, then written"""
     cs = [int(c) for c in cs]
     n = len(cs)
-    if how == 'aged_write' or (how in ('aged_view', 'aged_derived') and shape == ()):
+    if how == 'aged_write' or (how == 'aged_view' and shape == ()):
         x = build(f, _other_codes(f, cs), shape, 'raw', **kw)
         warm(x)
         if shape == ():
@@ -327,18 +326,19 @@ def build_aged(f, cs, shape, how, **kw):
             _quiet(lambda: v.set_val(_other_codes(f, cs[:1])[0], raw=True, index=(0,) + tuple(first[1:])))
         return x
     if how == 'aged_derived':
-        oc = _other_codes(f, cs)
+        # no write after the derivation: whatever the parent cached travels with the derived object
+        if shape == ():
+            x0 = build(f, cs + _other_codes(f, cs), (2,), 'raw', **kw)
+            warm(x0)
+            return x0[0]
         if len(shape) == 2:
-            x0 = build(f, oc, (shape[1], shape[0]), 'raw', **kw)
+            arr = np.array(cs, dtype=object).reshape(shape).T.ravel().tolist()
+            x0 = build(f, arr, (shape[1], shape[0]), 'raw', **kw)
             warm(x0)
-            x = x0.T
-        else:
-            x0 = build(f, oc, (1, n), 'raw', **kw)
-            warm(x0)
-            x = x0.flatten()
-        for i, idx in enumerate(np.ndindex(*shape)):
-            x.set_val(cs[i], raw=True, index=idx)
-        return x
+            return x0.T
+        x0 = build(f, cs, (1, n), 'raw', **kw)
+        warm(x0)
+        return x0.flatten()
     if how == 'aged_resized':
         f0 = (not f[0], max(f[1], 2) + 1, 0)
         zeros = 0 if shape == () else np.zeros(shape, dtype=np.int64)
